@@ -251,6 +251,10 @@ def native_holds(spec, obs, tree, scenario):
         if tree is None:
             return None
         return not any(p.startswith("cache/tmp/") for p in tree)
+    if k == "tree_eq_cache_empty":
+        if tree is None:
+            return None
+        return not any(p.startswith("cache/") for p in tree)
     if k == "tree_eq":
         if tree is None:
             return None
